@@ -663,15 +663,25 @@ class JWSTWCSCorrector(WCSCorrector):
         detname = self._wcs.pipeline[0].frame.name
         worldname = self._wcs.pipeline[-1].frame.name
 
+        # The tangent plane is defined with regard to the frame to which
+        # the tangent-plane correction is applied, i.e., the frame preceding
+        # 'v2v3corr' (if present), so that the correction is accounted for
+        # exactly once (by ``self._partial_tpcorr``):
+        frms = self._wcs.available_frames
+        if 'v2v3corr' in frms:
+            v23name = frms[frms.index('v2v3corr') - 1]
+        else:
+            v23name = self._v23name
+
         # Generally needed transformations:
-        self._world_to_v23 = self._wcs.get_transform(worldname, self._v23name)
-        self._v23_to_world = self._wcs.get_transform(self._v23name, worldname)
-        self._det_to_v23 = self._wcs.get_transform(detname, self._v23name)
+        self._world_to_v23 = self._wcs.get_transform(worldname, v23name)
+        self._v23_to_world = self._wcs.get_transform(v23name, worldname)
+        self._det_to_v23 = self._wcs.get_transform(detname, v23name)
         self._det_to_world = self._wcs.__call__
 
         # Optional / convenience transformations:
         try:
-            self._v23_to_det = self._wcs.get_transform(self._v23name, detname)
+            self._v23_to_det = self._wcs.get_transform(v23name, detname)
         except NotImplementedError:
             self._v23_to_det = None
 
